@@ -951,7 +951,13 @@ impl Xot {
     /// If that id does not exist, returns [`None`].
     pub fn xml_id_node(&self, document_node: Node, value: &str) -> Option<Node> {
         let value_nodes = self.id_nodes_map.get(&document_node.get())?;
-        value_nodes.get(value).map(|node_id| Node::new(*node_id))
+        let node = Node::new(*value_nodes.get(value)?);
+        // the index is filled at parse time; never hand out a node that has
+        // been removed since
+        if self.is_removed(node) {
+            return None;
+        }
+        Some(node)
     }
 }
 
